@@ -88,6 +88,19 @@ end
 def selRat (E : Nat → Rat) (thr : Rat) (n l : Nat) : Bool :=
   decide (E n - E l < thr) && decide (E l - E n < thr)
 
+/-! ### `dEig_inv` for all k-points of a Data_K -/
+
+/-- `Data_K.dEig_inv[ik, n, l]`: the per-k function applied at every k-point `ik < nk` of the FFT grid -/
+def dEigInvAllK {K : Type} [Sub K] [Inv K] [Zero K] (E : Nat → Nat → K) (sel : Nat → Nat → Nat → Bool)
+    (nk ik n l : Nat) : K :=
+  if ik < nk then dEigInv (E ik) (sel ik) n l else 0
+
+/-- the same array filled block-wise: `for i0 in range(0, nblocks*nb, nb): out[i0:i0+nb] = f(E[i0:i0+nb])`
+    (slices clipped at `nk`), entries never written stay 0 -/
+def dEigInvBlocks {K : Type} [Sub K] [Inv K] [Zero K] (E : Nat → Nat → K) (sel : Nat → Nat → Nat → Bool)
+    (nblocks nb nk ik n l : Nat) : K :=
+  if ik < nk ∧ ik < nblocks * nb then dEigInv (E ik) (sel ik) n l else 0
+
 /-! ### the band groups of a Fermi-sea calculator (`Data_K.get_bands_in_range_groups_ik(..., sea=True)`) -/
 
 /-- `get_bands_below_range(emin, E)`: `np.where(E < emin)[0][-1] + 1`, and 0 when no band lies below `emin` -/
